@@ -452,12 +452,74 @@ def _k2_evaluate_lines(rep, flow, tables, clsfq, name, pos, where_txt, shown):
     return True
 
 
+def _mentions_line_loosely(k):
+    """the key mentions text of a table line at a position that is not a constant (a part / an alternative of parts)"""
+    if isinstance(k, tuple) and k:
+        if k[0] in ("part", "alt", "elem") and "filetext" in str(k):
+            return True
+        return any(_mentions_line_loosely(x) for x in k[1:])
+    return False
+
+
+def _k2_evaluate_text(rep, flow, tables, clsfq, where_txt):
+    """which field holds the circuit text, and what the record's parse method hands to the loader: decided by building the
+    record from every shipped line and running its parse method with the loader replaced by a recorder of its arguments"""
+    from . import consteval
+    if tables is None:
+        return False
+    try:
+        cls = flow.prog.cls(clsfq)
+    except AnalysisError:
+        return False
+    init, pm = cls.methods.get("__init__"), flow.prog.find_method(cls, "parse_circuit")
+    loaders = find_loader(flow)
+    if init is None or pm is None or len(init.params) != 3 or len(loaders) != 1:
+        return False
+    lfq = next(iter(loaders))
+    ce = consteval.CE(flow.prog, max_steps=400_000_000)
+    seen = []
+    ce.stubs = {lfq: (lambda *a, **k: seen.append((a, k)) or consteval.Recorder(None))}
+    n_eval = 0
+    for tf in tables.stab:
+        for L in tf.lines:
+            cols = L.raw.split(":")
+            if len(cols) != 4 or L.problems:
+                continue
+            inst = consteval.Instance(cls)
+            try:
+                ce.call_func(init, [inst, tf.n, L.raw], {})
+                holders = [k for k, v in inst.attrs.items() if v == cols[3]]
+                if not holders:
+                    rep.finding("K2", f"{clsfq}:circuit:evaluated", f"{where_txt}: the record built from {L.where()} holds the circuit text (column 3) in none of its fields {sorted(inst.attrs)}")
+                    return True
+                del seen[:]
+                ce.call_func(pm, [inst], {})
+            except consteval.CERaise as ex:
+                rep.finding("K2", f"{clsfq}:text:raise", f"{where_txt}: building / parsing the record of {L.where()} raises {ex.etype} ({ex.msg[:80]})")
+                return True
+            except AnalysisError:
+                return False
+            if len(seen) != 1:
+                return False
+            a, kw = seen[0]
+            vals = list(a) + list(kw.values())
+            if cols[3] not in vals or tf.n not in vals:
+                rep.finding("K2", f"{clsfq}:loader-arg:evaluated", f"{where_txt}: for {L.where()} the loader {lfq} is called with {[str(v)[:40] for v in vals]}; required the register size {tf.n} and the circuit text of that line (column 3)")
+                return True
+            n_eval += 1
+    if n_eval == 0:
+        return False
+    rep.ok("K2", 2, nontrivial=(clsfq, "text-evaluated"), sample=f"circuit text and loader argument decided by evaluation on all {n_eval} shipped lines: one field holds column 3, the loader receives (n, column 3)")
+    return True
+
+
 def K2_reader(rep, flow: Flow, tables=None):
     rep.rule("K2", "the stabilizer record takes cost / depth / circuit from positions 1 / 2 / 3 of one and the same table line, and the circuit is parsed from position 3 of that line", floor=3)
     m = flow.prog.modules.get("circuit_lookup")
     if m is None:
         raise AnalysisError("module circuit_lookup vanished")
     found = False
+    text_by_eval = False
     for f in m.funcs.values():
         if f.name.startswith("_"):
             continue
@@ -500,6 +562,8 @@ def K2_reader(rep, flow: Flow, tables=None):
             if len(cs) == 1:
                 lines.add(cs[0][1])
                 rep.ok("K2", 1, nontrivial=(f.fq, "circuit"))
+            elif any(_mentions_line_loosely(v) for v in fields.values()) and _k2_evaluate_text(rep, flow, tables, d[1], f"{f.module.rel} {f.qualname}"):
+                text_by_eval = True
             elif any(_mentions_pos3(v) for v in fields.values()):
                 raise AnalysisError(f"{f.module.rel} {f.qualname}: the record keeps a TRANSFORMED copy of position 3 (the circuit text) of the line: whether the transformation preserves the circuit is outside K2")
             else:
@@ -508,6 +572,8 @@ def K2_reader(rep, flow: Flow, tables=None):
                 rep.finding("K2", f"{f.fq}:same-line", f"{f.module.rel} {f.qualname}: metadata and circuit text are taken from different lines")
     if not found:
         raise AnalysisError("no public accessor in circuit_lookup reads a stabilizer table (anchor vanished)")
+    if text_by_eval:
+        return      # field and loader argument were decided together by evaluation
     # the parsed circuit of the API path uses position 3
     loaders = find_loader(flow)
     for r in flow.paths("stabilizer_circuits.get_readout_circuit"):
